@@ -864,12 +864,48 @@ def adt_head(ty):
     return ty
 
 
+def strip_generics(s):
+    out, depth = [], 0
+    for ch in s:
+        if ch == "<":
+            depth += 1
+        elif ch == ">":
+            depth -= 1
+        elif depth == 0:
+            out.append(ch)
+    return "".join(out)
+
+
 def short_name(name):
-    # keep the last two path segments, drop generic noise
+    """`<X as a::b::Trait<U>>::m` -> `Trait::m`; `a::b::Type::<T>::m` -> `Type::m` (generic arguments dropped)."""
     s = name
-    if s.startswith("<") and " as " in s:
-        s = s[1:]
-    parts = s.replace(">", "").split("::")
+    if s.startswith("<"):
+        # qualified path: find the matching '>' of the leading '<'
+        depth = 0
+        for i, ch in enumerate(s):
+            if ch == "<":
+                depth += 1
+            elif ch == ">":
+                depth -= 1
+                if depth == 0:
+                    inner, rest = s[1:i], s[i + 1:]
+                    break
+        else:
+            inner, rest = s[1:], ""
+        # split `X as Trait` at top level
+        depth, cut = 0, None
+        for j in range(len(inner)):
+            if inner[j] == "<":
+                depth += 1
+            elif inner[j] == ">":
+                depth -= 1
+            elif depth == 0 and inner.startswith(" as ", j):
+                cut = j
+                break
+        head = inner[cut + 4:] if cut is not None else inner
+        s = strip_generics(head) + rest
+    s = strip_generics(s)
+    parts = [x for x in s.split("::") if x]
     return "::".join(parts[-2:]) if len(parts) >= 2 else s
 
 
